@@ -50,7 +50,7 @@ func vTypeOf(cs *clientState, k string) string {
 func VerifH_c02_smoke() {
 	VerifSetup()
 	cs := vNewClient()
-	val := vString("val", 3)
+	val := vString("val", 3+2*vTier())
 	r := vCmd(cs, "SET", "k", val)
 	vAssert("set-ok", vIsOK(r))
 	g := vCmd(cs, "GET", "k")
@@ -64,14 +64,14 @@ func VerifH_c02_set() {
 	VerifSetup()
 	cs := vNewClient()
 	kind := vChoice("kind", 5)
-	old := vString("old", 2)
+	old := vString("old", 2+2*vTier())
 	vSeed(cs, "k", kind, old)
 	hadTTL := false
 	if kind != preAbsent && vBool("ttl") {
 		vCmd(cs, "EXPIRE", "k", "1000")
 		hadTTL = true
 	}
-	nv := vString("new", 2)
+	nv := vString("new", 2+2*vTier())
 	cond := vChoice("cond", 3) // 0 none, 1 NX, 2 XX
 	get := vBool("get")
 	keep := vBool("keepttl")
@@ -151,9 +151,9 @@ func VerifH_c02_family() {
 	VerifSetup()
 	cs := vNewClient()
 	kind := vChoice("kind", 5)
-	old := vString("old", 2)
+	old := vString("old", 2+2*vTier())
 	vSeed(cs, "k", kind, old)
-	nv := vString("new", 2)
+	nv := vString("new", 2+2*vTier())
 	exists := kind != preAbsent
 	upper := vBool("upper")
 	switch vChoice("cmd", 5) {
@@ -231,15 +231,15 @@ func VerifH_c02_mset() {
 	cs := vNewClient()
 	// pre-state of k2 decides whether MSETNX may write
 	kind2 := vChoice("kind2", 3) // absent, string, list
-	old2 := vString("old2", 1)
+	old2 := vString("old2", 1+2*vTier())
 	switch kind2 {
 	case 1:
 		vCmd(cs, "SET", "k2", old2)
 	case 2:
 		vCmd(cs, "RPUSH", "k2", "e")
 	}
-	v1 := vString("v1", 1)
-	v2 := vString("v2", 1)
+	v1 := vString("v1", 1+2*vTier())
+	v2 := vString("v2", 1+2*vTier())
 	nx := vBool("nx")
 	upper := vBool("upper")
 	name := "MSET"
@@ -292,21 +292,30 @@ func VerifH_c02_mset() {
 
 // refCanonInt recognises Redis' string2ll for texts of up to 3 bytes.
 func refCanonInt(s string) (int64, bool) {
-	isDigit := func(c byte) bool { return c >= '0' && c <= '9' }
-	switch len(s) {
-	case 1:
-		if isDigit(s[0]) {
-			return int64(s[0] - '0'), true
-		}
-	case 2:
-		if s[0] == '-' && s[1] >= '1' && s[1] <= '9' {
-			return -int64(s[1] - '0'), true
-		}
-		if s[0] >= '1' && s[0] <= '9' && isDigit(s[1]) {
-			return int64(s[0]-'0')*10 + int64(s[1]-'0'), true
-		}
+	// canonical decimal text of a small integer (up to 6 characters: no overflow)
+	if len(s) == 0 || len(s) > 6 {
+		return 0, false
 	}
-	return 0, false
+	neg := s[0] == '-'
+	digits := s
+	if neg {
+		digits = s[1:]
+	}
+	if len(digits) == 0 || (len(digits) > 1 && digits[0] == '0') || (neg && digits[0] == '0') {
+		return 0, false
+	}
+	var n int64
+	for i := 0; i < len(digits); i++ {
+		c := digits[i]
+		if c < '0' || c > '9' {
+			return 0, false
+		}
+		n = n*10 + int64(c-'0')
+	}
+	if neg {
+		n = -n
+	}
+	return n, true
 }
 
 // VerifH_c02_counter: INCR/DECR/INCRBY/DECRBY for all int64 old values and
@@ -324,7 +333,7 @@ func VerifH_c02_counter() {
 		p = vDecimalOf(old)
 		vCmd(cs, "SET", "k", old)
 	case 2:
-		old = vString("s", 2)
+		old = vString("s", 2+2*vTier())
 		p, isInt = refCanonInt(old)
 		vCmd(cs, "SET", "k", old)
 	case 3:
@@ -425,7 +434,7 @@ func VerifH_c02_getrange() {
 	VerifSetup()
 	cs := vNewClient()
 	kind := vChoice("kind", 3) // absent, string, list
-	s := vString("s", 3)
+	s := vString("s", 3+2*vTier())
 	switch kind {
 	case 1:
 		vCmd(cs, "SET", "k", s)
@@ -482,7 +491,7 @@ func VerifH_c02_setrange() {
 	VerifSetup()
 	cs := vNewClient()
 	kind := vChoice("kind", 3) // absent, string, list
-	s := vString("s", 3)
+	s := vString("s", 3+2*vTier())
 	switch kind {
 	case 1:
 		vCmd(cs, "SET", "k", s)
@@ -492,7 +501,7 @@ func VerifH_c02_setrange() {
 	if kind == 0 {
 		s = ""
 	}
-	sub := vString("sub", 2)
+	sub := vString("sub", 2+2*vTier())
 	os := vDecimal("off")
 	off := vDecimalOf(os)
 	// growth bound of this harness: offsets above 6 only for the error paths
